@@ -27,6 +27,30 @@ def load_variants(pid: str | None = None):
     for v in variants.VARIANTS:
         if pid is None or v['property'] == pid:
             out.append(v)
+    out.extend(seeded_variants(pid))
+    return out
+
+
+def seeded_variants(pid: str | None = None):
+    """Every confirmed seeded change (/verif/seeded/<id>/patch.diff, written by independent sub-agents or reverse patches of
+    the repairs) is a mutant for each property its meta.json says it breaks."""
+    out = []
+    sdir = os.path.join(VERIF, 'seeded')
+    if not os.path.isdir(sdir):
+        return out
+    for name in sorted(os.listdir(sdir)):
+        pf = os.path.join(sdir, name, 'patch.diff')
+        mf = os.path.join(sdir, name, 'meta.json')
+        if not (os.path.exists(pf) and os.path.exists(mf)):
+            continue
+        try:
+            with open(mf, encoding='utf-8') as f:
+                breaks = json.load(f).get('breaks', [])
+        except (OSError, ValueError):
+            continue
+        for b in breaks:
+            if pid is None or b == pid:
+                out.append({'id': f'seeded:{name}', 'property': b, 'edits': [], 'patch': pf})
     return out
 
 
@@ -53,6 +77,16 @@ def run_variant(v: dict) -> dict:
                             src = f.read()
                         with open(fp, 'w', encoding='utf-8') as f:
                             f.write(_ast.unparse(_ast.parse(src)) + '\n')
+        if v.get('patch'):
+            chk = subprocess.run(['patch', '-p1', '-s', '-f', '--dry-run', '-d', d, '-i', v['patch']], capture_output=True, text=True)
+            touched = [l[6:].split()[0] for l in open(v['patch'], encoding='utf-8') if l.startswith('+++ b/')]
+            inside = [t for t in touched if any(t.startswith(part + '/') for part in PARTS) and '/tests/' not in t]
+            if chk.returncode != 0 and not inside:
+                return {'id': v['id'], 'status': 'STALE', 'why': 'patch touches nothing analysed'}
+            p = subprocess.run(['patch', '-p1', '-s', '-f', '-d', d, '-i', v['patch']], capture_output=True, text=True)
+            rej = [t for t in inside if os.path.exists(os.path.join(d, t + '.rej'))]
+            if rej:
+                return {'id': v['id'], 'status': 'STALE', 'why': f'patch no longer applies to {rej}'}
         for path, old, new in v['edits']:
             fp = os.path.join(d, path)
             if not os.path.exists(fp):
@@ -68,13 +102,15 @@ def run_variant(v: dict) -> dict:
         q = subprocess.run([sys.executable, '-m', 'sa.main', v['property'], '--tier', 'quick'],
                            capture_output=True, text=True, env=env, cwd=VERIF, timeout=600)
         lines = [l.strip() for l in q.stdout.splitlines() if ': rule ' in l or l.startswith('ANALYSIS-ERROR')]
+        import re as _re
+        rules = sorted({m.group(1) for l in lines for m in [_re.search(r': rule (\S+)', l)] if m})
         want = v.get('expect', 'fire')
         if want == 'fire':
             ok = q.returncode == 1 and (not v.get('names') or any(v['names'] in l for l in lines))
         else:
             ok = q.returncode == 0
         return {'id': v['id'], 'status': 'OK' if ok else 'FAIL', 'rc': q.returncode, 'expect': want,
-                'lines': lines[:3], 'names': v.get('names')}
+                'lines': lines[:3], 'names': v.get('names'), 'rules': rules}
     except subprocess.TimeoutExpired:
         return {'id': v['id'], 'status': 'FAIL', 'rc': 'timeout', 'expect': v.get('expect', 'fire'), 'lines': []}
     finally:
@@ -92,6 +128,8 @@ def run_for_property(pid: str, jobs: int = 16, quiet: bool = False) -> dict:
     summary = {'variants': len(res), 'mutants_caught': sum(1 for r, v in zip(res, vs) if r['status'] == 'OK' and v.get('expect', 'fire') == 'fire'),
                'twins_silent': sum(1 for r, v in zip(res, vs) if r['status'] == 'OK' and v.get('expect') == 'silent'),
                'stale': [r['id'] for r in res if r['status'] == 'STALE'],
+               'rules_fired_by_some_mutant': sorted({x for r, v in zip(res, vs) if v.get('expect', 'fire') == 'fire' for x in r.get('rules', [])}),
+               'seeded_changes_caught': sorted(r['id'][7:] for r in res if r['id'].startswith('seeded:') and r['status'] == 'OK'),
                'failed': [r for r in res if r['status'] == 'FAIL']}
     if not quiet:
         for r in res:
